@@ -154,6 +154,18 @@ Theorem c06_reconnecting_not_caught_up :
 Proof. exact reconnecting_not_caught_up. Qed.
 Print Assumptions c06_reconnecting_not_caught_up.
 
+(* AOFSHRINK on the leader, FOLLOW to another leader, a dropped connection and a follower restart end the running
+   session in whatever phase it is (initial bulk copy or tailing) and in every mode; after EShrink l' / EFollow l'
+   the log the follower has to agree with is l' (c06_connect_in_step / c06_converge then apply to l'; the harness
+   checks on real servers that a new replication session is opened: correspondence "session-ends") *)
+Theorem c06_session_ends :
+  forall digest md5 digest_eqb csz st st0 app md l f e,
+  session_ending e ->
+  f_ses (snd (step digest md5 digest_eqb csz st st0 app md (l, f) e)) = None /\
+  (forall l', e = EShrink l' \/ e = EFollow l' -> fst (step digest md5 digest_eqb csz st st0 app md (l, f) e) = l').
+Proof. exact session_ends. Qed.
+Print Assumptions c06_session_ends.
+
 (* ---- concrete instances: identity "MD5" (trivially injective), toy command semantics ---- *)
 Definition idm (b : bytes) : bytes := b.
 Definition mk (file : file) (aofsz : Z) : fol toy_st :=
@@ -195,6 +207,24 @@ Proof.
   - split; repeat constructor.
   - split; [reflexivity|split; [reflexivity|split; repeat constructor]].
   - cbn. repeat split.
+Qed.
+
+(* re-pointing: a follower in step with leader A (2 objects in collection 7) is told to FOLLOW leader B (other
+   data); after the new session has been handled it holds exactly B's dataset and B's log *)
+Example c06_repoint_example :
+  let la := [[1;7;1;5]; [1;7;2;6]]%N in
+  let lb := [[1;8;1;1]; [1;9;1;2]; [2;8;1]]%N in
+  let es := [EConnect; EDeliver; EDeliver; EFollow lb; EBegin; EConnect; EDeliver; EDeliver; EDeliver] in
+  ok_trace bytes idm bytes_eqb c_checksumsz toy_st [] toy_app toy_okrec (la, mk [] 0) es /\
+  let w := trun Repaired c_checksumsz (la, mk [] 0) es in
+  fst w = lb /\ drained (snd w) = true /\ f_cup (snd w) = true /\ f_mem (snd w) = [(9, [(1, 2)])]%N /\ f_file (snd w) = lb.
+Proof.
+  split; [|vm_compute; repeat split].
+  cbn. repeat split.
+  - intros pre r post E. destruct pre as [|a [|b [|c [|d pre]]]]; cbn in E; inversion E; subst; try reflexivity.
+    all: try (destruct pre; discriminate).
+  - repeat constructor.
+  - repeat constructor.
 Qed.
 
 (* ---- the code as found (mode Pinned): refuted; repaired by commit "follow-start-over".
